@@ -220,12 +220,12 @@ pub fn hook_obligations_from_log(out: &mut Out<Sym>) {
     for (ci, h) in log.iter().enumerate() {
         let Some(Some((pr, pc, a))) = prods.get(h.plant_index) else { continue };
         if (h.nrows, h.ncols) != (*pr, *pc) {
-            out.fact("C01.svd_input_shape", false, format!("svd call {ci}: matrix {}x{} handed to svd, expected {}x{}", h.nrows, h.ncols, pr, pc));
+            out.fact("SVD.input_shape", false, format!("svd call {ci}: matrix {}x{} handed to svd, expected {}x{}", h.nrows, h.ncols, pr, pc));
             continue;
         }
         for j in 0..h.ncols {
             for i in 0..h.nrows {
-                out.obligations_push_raw("C01.svd_input", format!("svd#{ci}[{i},{j}]"), HS::repr(h.handed[i + j * h.nrows]), HS::repr(a[i + j * h.nrows]));
+                out.obligations_push_raw("SVD.input", format!("svd#{ci}[{i},{j}]"), HS::repr(h.handed[i + j * h.nrows]), HS::repr(a[i + j * h.nrows]));
             }
         }
     }
